@@ -6,7 +6,7 @@
 set -u
 OUT=$1; ID=$2
 WT=/tmp/confirm-wt
-export CARGO_NET_OFFLINE=true RUSTC_BOOTSTRAP=1
+export CARGO_NET_OFFLINE=true RUSTC_BOOTSTRAP=1 CARGO_INCREMENTAL=0
 if [ ! -d $WT ]; then
   git -C /repo worktree add --detach $WT HEAD >/dev/null 2>&1 || exit 2
   cp -r /tmp/mut-template-target $WT/target
@@ -35,3 +35,6 @@ if [ "$APPLY" = yes ] && [ -n "$DEMO" ]; then
 fi
 printf '{"id":"%s","applies":"%s","suite_passes_with_patch":"%s","demo_fails_with_patch":"%s","demo_passes_without_patch":"%s"}\n' $ID $APPLY $SUITE $DEMO_FAIL $DEMO_PASS > $OUT/confirm.json
 cat $OUT/confirm.json
+# keep the scratch target small: drop test binaries and incremental state
+rm -rf $WT/target/debug/incremental
+( cd $WT/target/debug/deps 2>/dev/null && ls | grep -E "^(mech|mechc|interpreter|bytecode|seeded_[a-z0-9]+)-[0-9a-f]+$" | xargs rm -f )
